@@ -242,7 +242,7 @@ pub fn run(ctx: &Ctx) {
     if let Some(k) = std::env::var("VERIF_C27_CASES").ok().and_then(|x| x.parse().ok()) {
         n = k; // development aid
     }
-    ctx.run("state", CaseCfg::cases(n).choices(1200).timeout_s(900).shrink_iters(30), one_case);
+    ctx.run("state", CaseCfg::cases(n).choices(1200).timeout_s(2400).shrink_iters(30), one_case);
     ctx.assume("check mode and write mode both start from the same saved tree state (cp -a, mtimes kept) restored to the same path, so cache entries / build info / absolute filelists refer to the same paths");
     ctx.assume("fmt: a file counts as changed if the bytes of a *.veryl file differ after `veryl fmt` (exit 0); cases where write mode itself fails are not compared");
     ctx.assume("build: counted files are the emitted .sv files of project sources (outside dependencies/) for source/directory targets, the bundle file for bundle targets (cmd_build.rs check branch / check_bundle). Source maps, the filelist and $std outputs are written by `veryl build` but not examined by `--check`; they are excluded");
